@@ -319,6 +319,11 @@ func genRepo(r *gen.Rand, name string) repoSpec {
 
 // genDoc: one document for repo rp; startRune = runes of the contents before it (to aim at the sampling boundaries)
 func genDoc(r *gen.Rand, rp repoSpec, i int, maxTokens int, startRune int, allowBad bool) docSpec {
+	return genDocM(r, rp, i, maxTokens, startRune, allowBad, false)
+}
+
+// genDocM: noMeta = symbol sections come without SymbolsMetaData
+func genDocM(r *gen.Rand, rp repoSpec, i int, maxTokens int, startRune int, allowBad bool, noMeta bool) docSpec {
 	d := docSpec{}
 	d.SubRepo = ""
 	if len(rp.SubRepos) > 0 && r.Chance(1, 2) {
@@ -371,6 +376,14 @@ func genDoc(r *gen.Rand, rp repoSpec, i int, maxTokens int, startRune int, allow
 	d.Symbols, d.Meta = genSymbols(r, d.Content, gen.Pick(r, []int{0, 1, 3, 8, 20}), allowBad && r.Chance(1, 12))
 	if len(d.Symbols) == 0 {
 		d.Symbols, d.Meta = nil, nil
+	}
+	if noMeta && len(d.Symbols) > 12 { // sort.Sort swaps (pdqsort) above 12 elements even on sorted input: keep to insertion sort
+		d.Symbols = nil
+	}
+	if noMeta && len(d.Symbols) > 0 {
+		// symbol ranges without metadata (as most of the package's own tests pass them); sorted, so that Add's sort never swaps
+		sort.Slice(d.Symbols, func(i, j int) bool { return d.Symbols[i].Start < d.Symbols[j].Start })
+		d.Meta = nil
 	}
 	return d
 }
